@@ -141,12 +141,12 @@ package wallet
 //
 // Element copies keep id, output and maturity height:
 //@ extern (types.SiacoinElement).Share pure
-//@   ensures result.ID == sce.ID && result.SiacoinOutput == sce.SiacoinOutput && result.MaturityHeight == sce.MaturityHeight
+//@   ensures result.ID == sce.ID && result.SiacoinOutput == sce.SiacoinOutput && result.MaturityHeight == sce.MaturityHeight && result.StateElement.LeafIndex == sce.StateElement.LeafIndex
 //@ extern (types.SiacoinElement).Copy
 //@   assigns nothing
-//@   ensures result.ID == sce.ID && result.SiacoinOutput == sce.SiacoinOutput && result.MaturityHeight == sce.MaturityHeight
+//@   ensures result.ID == sce.ID && result.SiacoinOutput == sce.SiacoinOutput && result.MaturityHeight == sce.MaturityHeight && result.StateElement.LeafIndex == sce.StateElement.LeafIndex
 //@ extern (types.SiacoinElement).Move pure
-//@   ensures result.ID == sce.ID && result.SiacoinOutput == sce.SiacoinOutput && result.MaturityHeight == sce.MaturityHeight
+//@   ensures result.ID == sce.ID && result.SiacoinOutput == sce.SiacoinOutput && result.MaturityHeight == sce.MaturityHeight && result.StateElement.LeafIndex == sce.StateElement.LeafIndex
 //@ extern (*types.Transaction).SiacoinOutputID pure
 //@ extern (*types.V2Transaction).EphemeralSiacoinOutput pure
 //@   requires 0 <= i && i < len(txn.SiacoinOutputs)
@@ -446,8 +446,7 @@ package wallet
 // C06: what the wallet hands to its store for every block of the update stream.
 // UpdateTx is the store's transaction, abstract here.
 // every siacoin diff of an update records a creation, a spend, or both (assumed of consensus)
-//@ extern (consensus.RevertUpdate).SiacoinElementDiffs
-//@   assigns nothing
+//@ extern (consensus.RevertUpdate).SiacoinElementDiffs pure
 //@   ensures forall d int :: { result[d] } 0 <= d && d < len(result) ==> result[d].Created || result[d].Spent
 //@ extern (types.BlockID).MinerOutputID pure
 //@ extern (types.BlockID).FoundationOutputID pure
